@@ -18,6 +18,11 @@ Line protocol of component `reservoir`:
                                `trace=<one letter per grant: s selected, c claimed, r reading, o between ops, f finished, x did not move>
                                 asked=<per thread, `/`-joined: what each push asked the generator for>
                                 drains=<tid:len:rate:vals(+-joined)> flush=<two sequential drains after the run>`
+* `pushers <cap> <progs> <sched>` → an epoch of pushers on a fresh reservoir, read through the ghosts of the theorems
+                               `conc_pushers_*` / `conc_retention_is_sequential_on_claim_order_partial`:
+                               `pushonly=<pushOnlySched> done=<all pushes completed> inorder=<storesInOrder>
+                                log=<values in claim order (claimLog)> n=<#pushes> drain=<the drain that follows>
+                                seq=<drain of sequential push over the claim order, `-` unless inorder>`
 -/
 namespace MetricsVerif.Driver.Reservoir
 open MetricsVerif.Driver MetricsVerif.Reservoir
@@ -72,6 +77,16 @@ def crunAnswer (cap : Nat) (progs : List (List COp)) (sched : List Nat) : String
     let (_, d2) := a1.consume
     s!"trace={String.ofList labels.reverse} asked={asked} drains={drains} flush={drainTok d1},{drainTok d2}"
 
+def pushersAnswer (cap : Nat) (progs : List (List COp)) (sched : List Nat) : String :=
+  let s0 := Sys.init cap progs
+  let s := crun s0 sched
+  let b := fun (x : Bool) => if x then "1" else "0"
+  let log := claimLog s0 sched
+  let inorder := storesInOrder s0 sched
+  let done := s.threads.all (fun th => (pushPrefix th.prog).isEmpty)
+  let seq := if inorder && done then drainTok (seqRun (Res.new cap) log).drain else "-"
+  s!"pushonly={b (pushOnlySched s0 sched)} done={b done} inorder={b inorder} log={showList (fun (vc : Nat × Nat) => hex16 vc.1) log} n={(progs.flatMap pushPrefix).length} drain={drainTok s.asr.consume.2} seq={seq}"
+
 def handle (st : Option ASR) (args : List String) : Option (Option ASR × String) :=
   match args with
   | ["new", cap] => do pure (some (ASR.new (← cap.toNat?)), "ok")
@@ -87,6 +102,11 @@ def handle (st : Option ASR) (args : List String) : Option (Option ASR × String
     let progs ← (progs.splitOn "/").mapM (listTok copTok)
     let sched ← if sched == "-" then some [] else (sched.splitOn ".").mapM String.toNat?
     pure (st, crunAnswer cap progs sched)
+  | ["pushers", cap, progs, sched] => do
+    let cap ← cap.toNat?
+    let progs ← (progs.splitOn "/").mapM (listTok copTok)
+    let sched ← if sched == "-" then some [] else (sched.splitOn ".").mapM String.toNat?
+    pure (st, pushersAnswer cap progs sched)
   | op :: rest => do
     let a ← st
     match op, rest with
